@@ -641,7 +641,12 @@ def _nf_b2_chunk(args):
     envs = [env for _, env in grid]
     fails, steps = [], 0
     for path in files:
-        beh = tla.parse_sim_file(path)
+        try:
+            beh = tla.parse_sim_file(path)
+            if not beh:
+                continue
+        except Exception:  # noqa: BLE001 - the time-boxed simulation may be stopped while writing its last file
+            continue
         try:
             x, y = parse_marker(nf_text(beh[0]["x"])), parse_marker(nf_text(beh[0]["y"]))
         except Exception as e:  # noqa: BLE001
